@@ -108,9 +108,9 @@ CLAIMED = {
  "C01": dict(
    text="Partial. Lean proof of the print->parse round trip for five byte-level fragments: M-Whole (WHOLE MODULES: type definitions, global variables, function definitions and the metadata "
         "section in one text, top-level splitter, cross-fragment checks: whole_roundtrip), M-Meta (the metadata section: numbered tuples with null / reference / string / typed-constant / nested-tuple "
-        "fields, distinct, named metadata: meta_roundtrip), M-Core-3 (FUNCTION DEFINITIONS: any number of parameters and named / numbered blocks, 73 instruction and "
+        "fields, distinct, named metadata: meta_roundtrip), M-Core-3 (FUNCTION DEFINITIONS: any number of parameters and named / numbered blocks, 74 instruction and "
         "terminator rows — the integer and floating-point binary operations, icmp / fcmp with every predicate, load / store / alloca with an optional alignment, select, the 13 conversions, phi, freeze, "
-        "fneg, the vector element instructions, extractvalue / insertvalue with index paths, ret, br, conditional br, unreachable — over local values incl. forward references "
+        "fneg, the vector element instructions, extractvalue / insertvalue with index paths, getelementptr (typed through the C07 model), ret, br, conditional br, unreachable — over local values incl. forward references "
         "and nested constants; generic row-table reader proved to invert the printer, translation = asm/local.go: numbering, duplicates, undefined uses, label kinds, operand "
         "retyping), M-Core (opaque type definitions + integer globals: all names, widths, values, both literal "
         "notations) and M-Core-2 (identified struct type definitions with bodies of arbitrarily nested types; global variables / constants of ANY type initialised by integers "
